@@ -975,6 +975,12 @@ class Engine:
             self.log.info("Engine does not meet restarting conditions (restartHookOn=%s)" % reasons_for_restart)
             restartContext = experiment.model.codes.restartContexts['RestartContextRestartConditionsNotMet']
 
+        # VV: the engine may have been shut down while the restart hook was running (its component was given a
+        #     final state in the meantime): a task must not be started for it any more
+        if self.isShutdown:
+            self.log.warning("Engine was shut down while its restart was being decided - will not restart")
+            restartContext = experiment.model.codes.restartContexts['RestartContextRestartNotPossible']
+
         # Move stdout/stderr of previous job
         # If it fails abandon restart
         if restartContext in [experiment.model.codes.restartContexts["RestartContextRestartPossible"],
